@@ -68,6 +68,12 @@ def greater_equal(
     coefficients2 = x2.coefficients
     if out is None:
         out = numpy.greater_equal(coefficients1[0], coefficients2[0], **kwargs)
+    else:
+        numpy.copyto(
+            out,
+            numpy.greater_equal(coefficients1[0], coefficients2[0], **kwargs),
+            where=numpy.asarray(kwargs.get("where", True)),
+        )
     if not out.shape:
         return greater_equal(x1.ravel(), x2.ravel(), out=out.ravel()).item()
 
